@@ -50,8 +50,13 @@ def gen(rng, tier):
             sources = ["s%d" % i for i in range(nsrc)]
             # a share without any Capacity option (DefaultCapacity): the limiter must behave exactly as within an explicit capacity
             lines = ["cfg rate %s cap=%s" % (rc.fmt_rates(rates), "default" if rng.random() < 0.25 else str(cap))]
-            lines += rc.gen_source_ops(rng, rates, sources, rng.randint(20, long_ops),
-                                       allow_retry=True, allow_rates=rng.random() < 0.15)
+            stock = nsrc > 1 and rng.random() < 0.12     # sources told apart by the stock client.ip extractor
+            if stock:
+                sources = rc.clientip_sources(rng, nsrc)
+                lines[0] += " ext=clientip"
+            body = rc.gen_source_ops(rng, rates, sources, rng.randint(20, long_ops),
+                                     allow_retry=True, allow_rates=(not stock) and rng.random() < 0.15)
+            lines += rc.amount_one(body) if stock else body
         yield lines
     if tier == "thorough":
         # sustained traffic for many entry lifetimes
